@@ -82,6 +82,7 @@ fn xor_case(rec: &mut Rec, ctx: &Ctx, idx: u64, rng: &mut ChaCha20Rng) {
         continue;
       }
       rec.evals += 1;
+      rec.case(&("pair", idx, i, j));
       rec.ev("pair_examined");
       let n = a.ct.len().min(b.ct.len()).min(a.payload.len()).min(b.payload.len());
       let d = match (0..n).find(|&o| a.payload[o] != b.payload[o]) {
